@@ -338,6 +338,13 @@ func (f *Flow) Solve(spec Spec) *Sol {
 				if spec.Edge != nil {
 					gen, kill := spec.Edge(b, i, cond, cur)
 					o = apply(o, gen, kill)
+					// go/cfg does not split && and ||: on the true edge of `A && B` both operands are
+					// true, on the false edge of `A || B` both are false - the callback sees each operand
+					// on that edge as well
+					for _, part := range edgeOperands(cond, i) {
+						gen, kill := spec.Edge(b, i, part, cur)
+						o = apply(o, gen, kill)
+					}
 				}
 				if spec.Global != nil && cond != nil {
 					o = f.applyPending(o, cond, i)
@@ -352,6 +359,29 @@ func (f *Flow) Solve(spec Spec) *Sol {
 		}
 	}
 	return s
+}
+
+// edgeOperands: the operands of cond that are known to have the edge's truth
+// value: conjuncts on the true edge (i == 0), disjuncts on the false edge (i == 1).
+func edgeOperands(cond ast.Expr, i int) []ast.Expr {
+	var out []ast.Expr
+	var walk func(e ast.Expr)
+	walk = func(e ast.Expr) {
+		be, ok := unparen(e).(*ast.BinaryExpr)
+		if !ok {
+			return
+		}
+		if (be.Op == token.LAND && i == 0) || (be.Op == token.LOR && i == 1) {
+			for _, x := range []ast.Expr{be.X, be.Y} {
+				out = append(out, unparen(x))
+				walk(x)
+			}
+		}
+	}
+	if cond != nil && (i == 0 || i == 1) {
+		walk(cond)
+	}
+	return out
 }
 
 // Exit is a way out of the function.
